@@ -21,6 +21,9 @@ import time
 VERIF = os.path.dirname(os.path.abspath(__file__))
 REPO = os.environ.get("VERIF_REPO", "/repo")
 WORKROOT = os.environ.get("VERIF_WORKROOT", "/var/tmp/chf-verif")
+# Evidence files and new replay files describe /repo.  A run pointed at another tree (VERIF_REPO: scratch worktrees
+# with a seeded change, the tree before a repair) must not overwrite them: its output goes to the scratch area.
+OUTROOT = VERIF if os.path.realpath(REPO) == "/repo" else os.path.join(WORKROOT, "other-tree-output")
 GOENV = {"GOFLAGS": "-mod=mod", "GOPROXY": "off", "GOSUMDB": "off", "GOTOOLCHAIN": "local",
          "CGO_ENABLED": "1"}
 
@@ -289,7 +292,7 @@ def merge_hashes(pid, work):
 
 
 def save_replay(pid, unit_name, fail, kind="replays"):
-    d = os.path.join(VERIF, kind, pid)
+    d = os.path.join(OUTROOT, kind, pid)
     os.makedirs(d, exist_ok=True)
     body = {"property": pid, "unit": unit_name, "sig": fail["sig"], "msg": fail["msg"][:4000], "case": fail["case"]}
     hsh = hashlib.sha1(json.dumps(body["case"], sort_keys=True).encode()).hexdigest()[:12]
@@ -343,10 +346,10 @@ def write_evidence(pid, spec, tier, seed, results, work, wall, violations, known
         "assumptions": spec.get("assumptions", []),
         "wall_s": round(wall, 2), "violations": violations,
     }
-    os.makedirs(os.path.join(VERIF, "evidence"), exist_ok=True)
-    tmp = os.path.join(VERIF, "evidence", pid + ".json.tmp")
+    os.makedirs(os.path.join(OUTROOT, "evidence"), exist_ok=True)
+    tmp = os.path.join(OUTROOT, "evidence", pid + ".json.tmp")
     json.dump(doc, open(tmp, "w"), indent=1)
-    os.replace(tmp, os.path.join(VERIF, "evidence", pid + ".json"))
+    os.replace(tmp, os.path.join(OUTROOT, "evidence", pid + ".json"))
     return doc
 
 
